@@ -8,6 +8,7 @@ Bind : every enumerated shape is instantiated as a real Python value and substit
        cassandra.query.bind_params positionally ("%s") and by name ("%(a)s") with a stock Encoder; the produced
        characters are a trace validated by TLC against Trace_CqlTerm.tla: exactly one term, of the kind Expect
        gives for the type tag; decoded string / blob / integer / uuid content equal to the original.
+Several parameters of one statement (tag "params"): each is its own literal, also next to an equal-but-different value.
 Not covered: that a float / decimal / date / time literal denotes the same number as the prepared path; timestamps are
        decided only for datetimes near the epoch (naive, UTC offset 0, +2 h, -1 h): literal = wall - offset (ms) = DateType.serialize.
 """
@@ -41,14 +42,17 @@ META = {
                   "(numeric comparison; Expect only asks for a number, integer or string token there). For datetimes "
                   "1970-01-01 + {0, 1 s, 1 day + 123 ms} that are naive or carry a UTC offset of 0, +2 h or -1 h the literal "
                   "must be exactly the integer wall - offset (ms) of the specification AND equal the 8-byte value "
-                  "DateType.serialize sends on the prepared path. Trusted: TLC; the transcription of Cassandra's Lexer.g/Parser.g term "
+                  "DateType.serialize sends on the prepared path. The sign of a float / decimal literal is decided "
+                  "(-0.0). Statements with two and three parameters (query '(%s, %s)', positional and named) over values "
+                  "that compare and hash equal in Python but are different values (1 / True, 0 / False, 0.0 / -0.0, "
+                  "(0,) / (-0.0,)): every parameter must be substituted as its own literal. Trusted: TLC; the transcription of Cassandra's Lexer.g/Parser.g term "
                   "grammar into CqlLex.tla/CqlTerm.tla (durations, $$-strings, comments, bind markers, function calls, "
                   "type casts and UDT literals are not literal terms the encoder targets); the harness's instantiation "
                   "of a shape as a Python value. Children alphabets are small (5 quick / 9 thorough values).",
     "design_ref": "5.7 C29",
 }
 
-WITNESSES = ["Witness_Depth3", "Witness_MapInList", "Witness_EmptyBrace", "Witness_QuoteInStr", "Witness_AwareBeforeEpoch"]
+WITNESSES = ["Witness_Depth3", "Witness_MapInList", "Witness_EmptyBrace", "Witness_QuoteInStr", "Witness_AwareBeforeEpoch", "Witness_EqualButDifferent"]
 PREPARED_SIG = "Encoder.cql_encode_datetime:literal-differs-from-DateType.serialize"
 SUBCLASS_SIG = "Encoder.mapping:exact-type-dispatch:subclass-of-supported-type-falls-to-str"
 MODES = (("positional", "%s"), ("named", "%(a)s"))
@@ -64,7 +68,15 @@ def bind(shape, mode, base=False):
         raise tlc.MachineryError("cannot instantiate shape %r: %r" % (shape, ex))
     try:
         e = enc.Encoder()
-        out = q.bind_params("%s", [val], e) if mode == "positional" else q.bind_params("%(a)s", {"a": val}, e)
+        if shape["tag"] == "params":              # several parameters of one statement: (%s, %s) / (%(p1)s, %(p2)s)
+            n = len(val)
+            if mode == "positional":
+                out = q.bind_params("(%s)" % ", ".join(["%s"] * n), list(val), e)
+            else:
+                out = q.bind_params("(%s)" % ", ".join("%%(p%d)s" % i for i in range(n)),
+                                    dict(("p%d" % i, v) for i, v in enumerate(val)), e)
+        else:
+            out = q.bind_params("%s", [val], e) if mode == "positional" else q.bind_params("%(a)s", {"a": val}, e)
     except Exception as ex:
         return None, "%s: %s" % (type(ex).__name__, ex)
     if not isinstance(out, str):
